@@ -152,7 +152,8 @@ PoolC03 == SetToSeq(MultiCtx \cup OpSet \cup {U(a, b) : a \in OpSet, b \in OpSet
 PathPrefixes == << Abs(<<DoS, Step("child", T_any), Step("ancestor", T_any)>>),             \* a prefix that ends in a reverse axis
                Abs(<<DoS, Step("child", T_any), Step("preceding-sibling", T_node)>>), Abs(<<DoS, Step("namespace", T_any)>>),
                Abs(<<DoS, Step("child", T_any)>>), Abs(<<DoS, Step("child", T_name("", <<"b">>))>>), Abs(<<DoS, Step("attribute", T_any)>>),
-               Abs(<<DoS, Step("child", T_text)>>), Abs(<<Step("child", T_any)>>) >>
+               Abs(<<DoS, Step("child", T_text)>>), Abs(<<Step("child", T_any)>>),
+               Abs(<<DoS>>) >>                                                              \* every node, the root first
 PathSuffixes == << <<Step("self", T_any)>>, <<Step("self", T_name("", <<"x">>))>>, <<Step("ancestor-or-self", T_any)>>, <<Step("descendant-or-self", T_any)>>,
                <<Step("parent", T_node), Step("self", T_name("", <<"a">>))>>, <<StepP("self", T_node, <<Rel(<<Step("self", T_any)>>)>>)>>,
                <<Step("parent", T_node)>>, <<Step("ancestor", T_any)>>, <<Step("following-sibling", T_any)>>,
